@@ -231,6 +231,15 @@ fn main() {
             "quotes" => "p\"a ss'w\\d".to_string(),
             "nonascii" => "\u{41c}\u{43e}\u{439}\u{41f}\u{430}\u{440}\u{43e}\u{43b}\u{44c}-\u{6f22}\u{5b57}".to_string(),
             "long" => "correct horse battery staple 0123456789 abcdefghijklmnopqrstuvwxyz".to_string(),
+            // values that other conventions give a meaning to: @file, option, format string, shell, path, URL, JSON
+            "at-prefix" => "@Xk29/qpz-Tr0ub4dor-c4e8".to_string(),
+            "dash-prefix" => "--p4ssw0rd=-Zx81-kkQ".to_string(),
+            "format" => "100%s%x%n{}{0}{:?}-Qw7".to_string(),
+            "shell" => "$HOME${PATH}`id`;Jq3-Xw8vT".to_string(),
+            "path-like" => "/etc/ssl/prv/Hq7-Rm2cY.key".to_string(),
+            "url-like" => "file:///var/db/Kz5-Pn6dU?x=1#frag".to_string(),
+            "json-like" => "{\"k\": \"Vb9-Zt4qG\", \"n\": [1, 2]}".to_string(),
+            "multiline" => "frst-Lw2-Gh5kE\nscnd lne\ttbbd".to_string(),
             _ => "hunter2-S3cr3tPass".to_string(),
         };
         let mut ev = json!({"ev": "log", "case": k, "c": c});
@@ -271,6 +280,82 @@ fn main() {
                 });
                 ev["outcome"] = json!(outcome);
                 (String::from_utf8_lossy(&buf.0.lock().unwrap()).to_string(), forms(&key_der, None), true)
+            }
+            "agent-daemon" => {
+                // ONE agent process in daemon mode: a job that gets its session and succeeds, then the router is gone and
+                // the next job (started by SIGHUP) fails to connect; everything the process wrote is searched
+                let agent2 = agent.clone();
+                let text = rt.block_on(async move {
+                    use tokio_rustls::rustls;
+                    use vh::fakes::{start_junos, Eph};
+                    let certs: Vec<_> = rustls_pemfile::certs(&mut std::io::BufReader::new(std::fs::File::open(pki("server.crt")).unwrap())).collect::<Result<_, _>>().unwrap();
+                    let key = rustls_pemfile::private_key(&mut std::io::BufReader::new(std::fs::File::open(pki("server.key")).unwrap())).unwrap().unwrap();
+                    let cfg = rustls::ServerConfig::builder().with_no_client_auth().with_single_cert(certs, key).unwrap();
+                    let acceptor = tokio_rustls::TlsAcceptor::from(Arc::new(cfg));
+                    let junos = start_junos(json!([]), Eph::default(), vec![], acceptor, "c20".into(), None).await;
+                    let mut child = tokio::process::Command::new(&agent2)
+                        .args(["-f", "1", "-vvvv", "--irrd-host", "127.0.0.1", "--irrd-port", "1", "remote", "--netconf-host", "127.0.0.1",
+                               "--netconf-port", &junos.addr.port().to_string(), "--ca-cert-path", pki("ca.crt").to_str().unwrap(),
+                               "--client-cert-path", pki("client.crt").to_str().unwrap(), "--client-key-path", pki("client.key").to_str().unwrap(),
+                               "--tls-server-name", "localhost"])
+                        .env("RUST_LOG", "trace")
+                        .stdin(std::process::Stdio::null())
+                        .stdout(std::process::Stdio::null())
+                        .stderr(std::process::Stdio::piped())
+                        .kill_on_drop(true)
+                        .spawn()
+                        .expect("spawn agent");
+                    let pid = child.id().unwrap_or(0) as i32;
+                    let errbuf: Arc<Mutex<Vec<u8>>> = Arc::new(Mutex::new(Vec::new()));
+                    if let Some(mut pipe) = child.stderr.take() {
+                        let errbuf = errbuf.clone();
+                        drop(tokio::spawn(async move {
+                            use tokio::io::AsyncReadExt;
+                            let mut b = [0u8; 16384];
+                            while let Ok(n) = pipe.read(&mut b).await {
+                                if n == 0 {
+                                    break;
+                                }
+                                errbuf.lock().unwrap().extend_from_slice(&b[..n]);
+                            }
+                        }));
+                    }
+                    let sessions = |j: &vh::fakes::FakeJunos| j.state.lock().unwrap().log.iter().filter(|e| e["ev"] == "session_end").count();
+                    let until = std::time::Instant::now() + Duration::from_secs(8);
+                    while sessions(&junos) < 1 && std::time::Instant::now() < until {
+                        tokio::time::sleep(Duration::from_millis(20)).await;
+                    }
+                    // the router goes away; two more jobs (period, then SIGHUP after the failure)
+                    junos.state.lock().unwrap().refuse = true;
+                    let until = std::time::Instant::now() + Duration::from_secs(6);
+                    while sessions(&junos) < 2 && std::time::Instant::now() < until {
+                        tokio::time::sleep(Duration::from_millis(20)).await;
+                    }
+                    tokio::time::sleep(Duration::from_millis(150)).await;
+                    if pid > 0 {
+                        unsafe { libc::kill(pid, libc::SIGHUP) };
+                    }
+                    let until = std::time::Instant::now() + Duration::from_secs(4);
+                    while sessions(&junos) < 3 && std::time::Instant::now() < until {
+                        tokio::time::sleep(Duration::from_millis(20)).await;
+                    }
+                    tokio::time::sleep(Duration::from_millis(150)).await;
+                    if pid > 0 {
+                        unsafe { libc::kill(pid, libc::SIGTERM) };
+                    }
+                    let _ = timeout(Duration::from_secs(8), child.wait()).await;
+                    tokio::time::sleep(Duration::from_millis(30)).await;
+                    let n = sessions(&junos);
+                    let t = String::from_utf8_lossy(&errbuf.lock().unwrap()).to_string();
+                    (n, t)
+                });
+                ev["outcome"] = json!(format!("sessions seen by the router: {}", text.0));
+                let mut needles = forms(&key_der, None);
+                let pem = std::fs::read_to_string(pki("client.key")).unwrap_or_default();
+                for l in pem.lines().filter(|l| !l.starts_with("-----")).take(3) {
+                    needles.push(("pem-body".into(), l[..l.len().min(40)].to_string()));
+                }
+                (text.1, needles, false)
             }
             _ => {
                 // the agent binary, maximum verbosity, stderr
